@@ -64,13 +64,18 @@ impl ToTokens for Project {
     fn to_tokens(&self, tokens: &mut proc_macro2::TokenStream) {
         let variables: Vec<&Ident> = self.variables.iter().collect();
         let body: Vec<&Clause> = self.body.iter().collect();
+        // The body is built anew for every state that reaches the goal, with the projected
+        // variables shadowed by their values in that state.
         let output = quote! {{
-            #( let #variables = ::proto_vulcan::lterm::LTerm::projection(::std::clone::Clone::clone(&#variables)); )*
             ::proto_vulcan::operator::project::Project::new(
                 vec![ #( ::std::clone::Clone::clone(&#variables) ),* ],
-                ::proto_vulcan::GoalCast::cast_into(
-                    ::proto_vulcan::operator::conj::InferredConj::from_conjunctions(&[ #( &[ ::proto_vulcan::GoalCast::cast_into( #body ) ] ),* ])
-                )
+                Box::new(move |__projected__: &[::proto_vulcan::lterm::LTerm<_, _>]| {
+                    let mut __projected_iter__ = __projected__.iter();
+                    #( let #variables = ::std::clone::Clone::clone(__projected_iter__.next().unwrap()); )*
+                    ::proto_vulcan::GoalCast::cast_into(
+                        ::proto_vulcan::operator::conj::InferredConj::from_conjunctions(&[ #( &[ ::proto_vulcan::GoalCast::cast_into( #body ) ] ),* ])
+                    )
+                })
             )
         }};
         output.to_tokens(tokens);
